@@ -2,9 +2,9 @@
 EXTENDS Ownership
 ObsEmit(op, args, ret, post) ==
     PrintT(ToJson([pre |-> Pre, op |-> op, args |-> args, ret |-> ret, post |-> post]))
-\* value tables: two of the handles carry EQUAL values (identity vs equality), one a different value
-Val2 == <<1, 1>>
-Val3 == <<1, 1, 2>>
-Val4 == <<1, 1, 2, 2>>
+\* value tables: handles carrying EQUAL values (identity vs equality); value 0 is the EMPTY text (an object that is "" yet owns a buffer)
+Val2 == <<0, 1>>
+Val3 == <<0, 0, 1>>
+Val4 == <<0, 0, 1, 1>>
 ObsNone(op, args, ret, post) == TRUE
 ================================================================================
